@@ -13,9 +13,9 @@ from gen import Gen
 from common import cerberus
 from cerberus import TypeDefinition
 
-LEVEL = "exploration"
-COQ_FILES = []
-FACT_GROUPS = []
+LEVEL = "proof"
+COQ_FILES = ['theories/Model/Cache.v', 'theories/Proofs/CacheProofs.v', 'theories/Properties/C08.v']
+FACT_GROUPS = ['F21']
 ALLOWED_AXIOMS = []
 TRUSTED_BASE = [
     "Coq 8.16.1 kernel; Print Assumptions: closed under the global context",
